@@ -3,3 +3,4 @@ import Generated.FastDivTab
 import Generated.Globals
 import Generated.ExternRefs
 import Generated.VersionGates
+import Generated.Funcs
